@@ -468,48 +468,6 @@ def depth1_terms(atom_names, exponents=None, forms=("frac",)):
     return out
 
 
-def grow(pool_left, pool_right, exponents, rnd=None, n=None, want_depth=None):
-    """all (or a seeded selection of n) terms op(l, r) / l**p one level above the pools"""
-    out = []
-    for l, r in itertools.product(pool_left, pool_right):
-        out.append(M(l, r))
-        out.append(Dv(l, r))
-    for l in pool_left:
-        for p in exponents:
-            out.append(P(l, p))
-    if want_depth is not None:
-        out = [t for t in out if depth(t) == want_depth]
-    seen, uniq = set(), []
-    for t in out:
-        if t not in seen:
-            seen.add(t)
-            uniq.append(t)
-    if n is not None and len(uniq) > n:
-        uniq = rnd.sample(uniq, n)
-    return uniq
-
-
-def max_denominator(t):
-    m = mono(t)
-    d = 1
-    for e in m.exps.values():
-        d = max(d, e.denominator)
-    return d
-
-
-def inner_denominators(t):
-    """largest denominator of the accumulated exponent of any sub-term (size of the root witnesses the engine needs)"""
-    d = max_denominator(t)
-    k = t[0]
-    if k in ("mul", "div"):
-        return max(d, inner_denominators(t[1]), inner_denominators(t[2]))
-    if k in ("pow", "simp"):
-        return max(d, inner_denominators(t[1]))
-    if k == "coef":
-        return max(d, inner_denominators(t[2]))
-    return d
-
-
 def _draw(rnd, left, right, exponents):
     kind = rnd.choice(("mul", "div", "pow"))
     if kind == "pow":
